@@ -229,7 +229,22 @@ var c06Stream = &vlib.Check{
 	Oracle: c06Oracle, Inner: c06Inner, Classify: c06Classify,
 	Gen: func(t *rapid.T) *vlib.Case {
 		r := vlib.RapidRnd{T: t}
-		switch r.Intn(5) {
+		switch r.Intn(6) {
+		case 5:
+			// valid documents with long multi-line descriptions under every line-ending convention (the text is normalised
+			// from the source bytes on every build)
+			var sb strings.Builder
+			sb.WriteString("JSIGHT 0.3\nINFO\n  Title \"t\"\n  Description\n")
+			n := 5 + r.Intn(8)
+			for i := 0; i < n; i++ {
+				sb.WriteString("    " + strings.Repeat("  ", r.Intn(2)) + vlib.Pick(r, []string{"first line", "second line here", "x", "a longer line of text", ""}) + "\n")
+			}
+			sb.WriteString("    last line\n")
+			k := 1 + r.Intn(3)
+			for i := 0; i < k; i++ {
+				fmt.Fprintf(&sb, "GET /d%d\n  Description\n    one\n    two\n\n    three\n    four\n    five\n    six\n    seven\n  200 any\n", i)
+			}
+			return &vlib.Case{Project: vlib.SingleFile(toEOL([]byte(sb.String()), r))}
 		case 0, 1:
 			doc, f := genMultiFault(r)
 			return &vlib.Case{Project: vlib.SingleFile(toEOL(doc, r)), Params: map[string]any{"faults": f}}
